@@ -46,6 +46,9 @@ package upstream
 //@ ensures[sorted-input] arg(sortByPathLongest, 0) == upstreams.Upstreams
 //@ ensures[trailing-slash-handler-last] ret1 == nil ==> called(registerTrailingSlashHandler)
 //@ ensures[error-means-no-proxy] ret1 != nil ==> ret0 == nil
+//@ prop C17 C19
+//@ ensures[no-error-means-a-proxy] ret1 == nil ==> ret0 != nil
+//@ at call registerTrailingSlashHandler assert[nonnil:router-is-set] m.serveMux != nil && m.serveMux == ret(mux.NewRouter)
 
 //@ func (*multiUpstreamProxy).registerHandler
 //@ prop C17
@@ -100,3 +103,18 @@ package upstream
 //@ ensures[path-is-the-part-before-the-question-mark] ret2 == nil && ret0 == strings.SplitN(raw, "?", 2)[0]
 //@     || (called(url.ParseQuery) && ret1(url.ParseQuery) != nil)
 //@ at call Encode assert[query-is-the-encoded-merged-client-query] arg(Encode, 0) == originalQuery
+
+// ------------------------------------------------------------------ C19: `nonnil` upstream fields are established by the constructors
+//@ func newHTTPUpstreamProxy
+//@ prop C19 C17
+//@ ensures[nonnil:upstream-has-its-reverse-proxy] result != nil && typeis(result, "*httpUpstreamProxy") && as(result, "*httpUpstreamProxy").handler == ret(newReverseProxy)
+//@     && ret(newReverseProxy) != nil
+//@ prop C19
+//@ scan[nonnil:http-upstreams-allocated-by-the-constructor] alloc-of pkg/upstream.httpUpstreamProxy pkg/upstream.newHTTPUpstreamProxy
+//@ scan[nonnil:multi-upstream-allocated-by-the-constructor] alloc-of pkg/upstream.multiUpstreamProxy pkg/upstream.NewProxy
+
+//@ func newReverseProxy
+//@ shallow
+//@ prop C19 C17
+//@ ensures[nonnil:a-reverse-proxy] result != nil
+//@ ensures[single-host-proxy-to-the-target] result == ret(httputil.NewSingleHostReverseProxy) && arg(httputil.NewSingleHostReverseProxy, 0) == target
